@@ -89,7 +89,25 @@ def mutable_default_hits(repo, paths=None):
             n_params += 1
             name = arg.arg
             rebound_first = False
+            # stores guarded by a test that the default value itself does not pass never touch the shared default object
+            dead = set()
+            try:
+                from . import minieval as ME
+                dval = ast.literal_eval(d)
+                for cond in ast.walk(f):
+                    if isinstance(cond, ast.If):
+                        try:
+                            taken = bool(ME.Evaluator({name: dval}).ev(cond.test))
+                        except ME.Unknown:
+                            continue
+                        for blk in ((cond.orelse,) if taken else (cond.body,)):
+                            for st_ in blk:
+                                dead |= {id(x) for x in ast.walk(st_)}
+            except (ValueError, SyntaxError):
+                pass
             for n in ast.walk(f):
+                if id(n) in dead:
+                    continue
                 # in-place change of the parameter itself
                 tgt = None
                 if isinstance(n, ast.Subscript) and isinstance(n.ctx, (ast.Store, ast.Del)):
